@@ -22,7 +22,7 @@ from ..cfg import CFG, cond_atoms, disj_atoms, flatten_conj, path_conditions
 from ..report import Check
 from ..source import AnalysisError, Project, ancestors, assign_targets, body_walk, dotted, enclosing_func, enclosing_stmt, last_attr, norm, parent, short
 from .common import world
-from .ctxrules import forwarding_loops, isolated_copy_ops
+from .ctxrules import deferred_live_context, forwarding_loops, isolated_copy_ops
 
 
 def run(chk: Check, proj: Project) -> None:
@@ -217,6 +217,7 @@ def s5(chk: Check, proj: Project, w) -> None:
         ora = calls(cb, "on_render_after")
         ok = bool(ora) and norm(ora[0].args[0]) == cv
         chk.ob("S5", "component:render:on_render_after-gets-snapshot", m.loc(ora[0]) if ora else m.loc(cb), ok, "on_render_after receives the snapshot")
+    deferred_live_context(chk, "S5", proj)
     # other writers of outer_context attribute
     for mm, q, fn in proj.all_funcs():
         for s in stmts(fn):
